@@ -1079,43 +1079,48 @@ namespace chaiscript {
 
         Char_Parser &operator=(const Char_Parser &) = delete;
 
-        ~Char_Parser() {
-          try {
-            if (is_octal) {
-              process_octal();
-            }
+        /// Must be called once the last character has been fed to parse(): a numeric
+        /// escape sequence that reaches the end of the literal is completed (or rejected) here
+        void finish() {
+          if (is_octal) {
+            process_octal();
+          }
 
-            if (is_hex) {
-              process_hex();
-            }
+          if (is_hex) {
+            process_hex();
+          }
 
-            if (unicode_size > 0) {
-              process_unicode();
-            }
-          } catch (const std::invalid_argument &) {
-          } catch (const exception::eval_error &) {
-            // Something happened with parsing, we'll catch it later?
+          if (unicode_size > 0) {
+            process_unicode();
           }
         }
 
         void process_hex() {
-          if (!hex_matches.empty()) {
+          const bool missing_digits = hex_matches.empty();
+          if (!missing_digits) {
             auto val = stoll(hex_matches, nullptr, 16);
             match.push_back(char_type(val));
           }
           hex_matches.clear();
           is_escaped = false;
           is_hex = false;
+          if (missing_digits) {
+            throw exception::eval_error("Missing hexadecimal digits in escape sequence");
+          }
         }
 
         void process_octal() {
+          long long val = 0;
           if (!octal_matches.empty()) {
-            auto val = stoll(octal_matches, nullptr, 8);
-            match.push_back(char_type(val));
+            val = stoll(octal_matches, nullptr, 8);
           }
           octal_matches.clear();
           is_escaped = false;
           is_octal = false;
+          if (val > static_cast<long long>(std::numeric_limits<std::make_unsigned_t<char_type>>::max())) {
+            throw exception::eval_error("Octal escape sequence out of range");
+          }
+          match.push_back(char_type(val));
         }
 
         void process_unicode() {
@@ -1132,8 +1137,9 @@ namespace chaiscript {
           // exactly 4 or 8 hex digits at this point: the value always fits an unsigned long
           const auto ch = static_cast<uint32_t>(std::stoul(hex_matches, nullptr, 16));
           hex_matches.clear();
-          if (u_size == 4 && ch >= 0xD800 && ch <= 0xDFFF) {
-            throw exception::eval_error("Invalid 16 bit universal character");
+          if (ch >= 0xD800 && ch <= 0xDFFF) {
+            // surrogate code points are not characters, whichever form spells them
+            throw exception::eval_error(u_size == 4 ? "Invalid 16 bit universal character" : "Invalid 32 bit universal character");
           }
 
           if (ch < 0x80) {
@@ -1147,7 +1153,7 @@ namespace chaiscript {
             buf[1] = static_cast<char>(0x80 | ((ch >> 6) & 0x3F));
             buf[2] = static_cast<char>(0x80 | (ch & 0x3F));
             match.append(buf, 3);
-          } else if (ch < 0x200000) {
+          } else if (ch <= 0x10FFFF) {
             buf[0] = static_cast<char>(0xF0 | (ch >> 18));
             buf[1] = static_cast<char>(0x80 | ((ch >> 12) & 0x3F));
             buf[2] = static_cast<char>(0x80 | ((ch >> 6) & 0x3F));
@@ -1346,6 +1352,8 @@ namespace chaiscript {
               }
             }
 
+            cparser.finish();
+
             if (cparser.saw_interpolation_marker) {
               match.push_back('$');
             }
@@ -1409,6 +1417,7 @@ namespace chaiscript {
             for (auto s = start + 1, end = m_position - 1; s != end; ++s) {
               cparser.parse(*s, start.line, start.col, *m_filename);
             }
+            cparser.finish();
           }
 
           if (match.size() != 1) {
